@@ -49,13 +49,14 @@ def build_lib(log=None):
     d = os.path.join(CACHE, "lib-" + th)
     so = os.path.join(d, "libraptor.so")
     if os.path.exists(so):
+        os.utime(d, None)
         return d
     os.makedirs(CACHE, exist_ok=True)
-    # keep the cache small: drop other trees' objects
-    for old in glob.glob(os.path.join(CACHE, "lib-*")):
+    # keep the cache small: only the three most recently used trees survive
+    olds = sorted(glob.glob(os.path.join(CACHE, "lib-*")), key=os.path.getmtime, reverse=True)
+    for old in olds[3:]:
         shutil.rmtree(old, ignore_errors=True)
-    for old in glob.glob(os.path.join(CACHE, "drv-*")):
-        shutil.rmtree(old, ignore_errors=True)
+        shutil.rmtree(os.path.join(CACHE, "drv-" + os.path.basename(old)[4:]), ignore_errors=True)
     tmp = tempfile.mkdtemp(prefix="rapverif-")
     try:
         srcs = source_list()
